@@ -546,7 +546,7 @@ fn eval_family_case(fam: &Family, i: usize, dir: &std::path::Path, slot: usize) 
 pub fn run(tier: &str) -> Run {
     let mut run = Run::new("C03", tier);
     let tier_s = tier.to_string();
-    let fams = families(tier == "thorough");
+    let fams = families(crate::util::wide(tier));
     let dir = scratch_dir();
     let mut fam_stats = serde_json::Map::new();
     for (fi, fam) in fams.iter().enumerate() {
